@@ -3946,8 +3946,16 @@ impl Connection {
             None => 4,
         };
 
+        // Until 1-RTT keys are available, application data travels in 0-RTT packets, whose long
+        // header additionally carries the version, both CID lengths, the source CID and a two-byte
+        // length field
+        let long_header_extra = match self.spaces[SpaceId::Data].crypto {
+            Some(_) => 0,
+            None => 4 + 1 + 1 + self.handshake_cid.len() + 2,
+        };
+
         // 1 byte for flags
-        1 + self.rem_cids.active().len() + pn_len + self.tag_len_1rtt()
+        1 + self.rem_cids.active().len() + pn_len + self.tag_len_1rtt() + long_header_extra
     }
 
     fn tag_len_1rtt(&self) -> usize {
